@@ -389,13 +389,15 @@ def exec_op(tf, F, gens, op):
     """Execute one operation; returns a canonical observation (nested lists/tuples)."""
     kind = op[0]
     try:
-        if kind in ("idx", "read", "slice", "cgen"):
+        if kind in ("idx", "read", "readu", "slice", "cgen"):
             g, n = chan_names(op[1])
             ch = tf[g][n]
         if kind == "idx":
             return ["val", cv(ch[op[2]])]
         if kind == "read":
             return ["vals", cvs(ch.read_data(op[2], op[3]))]
+        if kind == "readu":
+            return ["vals", cvs(ch.read_data(op[2], op[3], scaled=False))]
         if kind == "slice":
             return ["vals", cvs(ch[slice(op[2], op[3], op[4])])]
         if kind == "cgen":
@@ -604,6 +606,45 @@ def gen_history(rng, F, fresh):
         todo += [gid] * max(1, total - used)
     rng.shuffle(todo)
     ops += [("next", gid) for gid in todo]
+    return ops
+
+
+def scaled_variant(F, rng):
+    """The same file with a Linear NI_Scale attached to its int32 / float64 channels by a final metadata-only
+    segment (object re-listed with a 'no data' index and four properties).  Only the direct oracle (same history
+    on a fresh file) is applied to it: the model moves labels, not scaled values."""
+    def prop(name, ty, val):
+        return _s(name) + struct.pack("<L", ty) + val
+    objs = []
+    for c, ty in zip(range(len(F["types"])), F["types"]):
+        if ty in (T_I32, T_F64) and c in F["chans"] and F["lengths"][c] > 0:
+            props = [prop("NI_Scale[0]_Scale_Type", 0x20, _s("Linear")),
+                     prop("NI_Scale[0]_Linear_Slope", 10, struct.pack("<d", rng.choice([2.0, -0.5, 1e-3]))),
+                     prop("NI_Scale[0]_Linear_Y_Intercept", 10, struct.pack("<d", rng.choice([0.0, 1.5]))),
+                     prop("NI_Number_Of_Scales", 7, struct.pack("<L", 1))]
+            objs.append(_s(chan_path(c)) + struct.pack("<L", 0xFFFFFFFF) + struct.pack("<L", len(props)) + b"".join(props))
+    if not objs:
+        return None
+    meta = struct.pack("<L", len(objs)) + b"".join(objs)
+    seg = b"TDSm" + struct.pack("<l", TOC_META) + struct.pack("<lQQ", 4713, len(meta), len(meta)) + meta
+    Fs = dict(F)
+    Fs["bytes"] = F["bytes"] + seg
+    Fs["shape"] = list(F["shape"]) + ["scale-props0"]
+    return Fs
+
+
+def scaled_history(rng, Fs, fresh):
+    """a history on the scaled variant: windows are read scaled and unscaled, and every integer index is followed,
+    half of the time, by an UNSCALED one-value window at the same position (inside the chunk the index cached)"""
+    ops = []
+    for op in gen_history(rng, Fs, fresh):
+        if op[0] == "read" and rng.random() < 0.5:
+            op = ("readu",) + tuple(op[1:])
+        ops.append(op)
+        if op[0] == "idx" and rng.random() < 0.5:
+            n = Fs["lengths"][op[1]]
+            if -n <= op[2] < n:
+                ops.append(("readu", op[1], op[2] % n, rng.choice([1, 1, 2])))
     return ops
 
 
@@ -840,6 +881,18 @@ def work1(args):
             res["d3_skipped"] += sk
             res["positions"] += coq_case.positions_compared
             res["cases"].append((h, term, ops))
+    res["scaled_fails"], res["scaled_histories"] = [], 0
+    if fidx % 3 == 1 and len(F["shape"]) < 100:
+        Fs = scaled_variant(F, rng)
+        if Fs is not None:
+            fresh_s = Fresh(Fs)
+            for h in range(2):
+                ops = scaled_history(rng, Fs, fresh_s)
+                res["scaled_histories"] += 1
+                i, outs = first_diff(Fs, fresh_s, ops)
+                if i is not None:
+                    res["scaled_fails"].append({"ops": ops, "at": i, "bytes": Fs["bytes"], "shape": Fs["shape"],
+                                                "got": outs[i], "want": fresh_s.of(annotate(ops)[i])})
     res["F"] = {k: F[k] for k in ("bytes", "types", "chans", "segs", "lengths", "raw_ts", "shape")}
     res["fresh_opens"] = fresh.opens
     return res
@@ -896,6 +949,15 @@ def replay(run, case):
     F = restore_F(F)
     ops = [tuple(o) for o in case["ops"]]
     run.cov["evaluations"] += 1
+    if case.get("scaled"):
+        # scaled variant: direct oracle only (same history on a fresh file)
+        fresh = Fresh(F)
+        i, outs = first_diff(F, fresh, ops)
+        if i is not None:
+            run.violation("history-scaled-" + ops[i][0], "scaled channel: op #%d %r yields %r, on a freshly opened file %r"
+                          % (i, ops[i], outs[i], fresh.of(annotate(ops)[i])), case, expected=fresh.of(annotate(ops)[i]),
+                          actual=outs[i])
+        return
     if not report_failure(run, F, ops, shrunk=False):
         fresh = Fresh(F)
         labels = labels_of(F)
@@ -998,6 +1060,21 @@ def main():
             run.violation("harness-labels", "generated values of a channel are not distinct after reading",
                           {"file_hex": F["bytes"].hex()}, kind="correspondence-broken",
                           theorem="harness value labelling", no_input=True)
+        run.count("histories_on_scaled_variants", r.get("scaled_histories", 0))
+        run.cov["evaluations"] += r.get("scaled_histories", 0)
+        for fl in r.get("scaled_fails", [])[:1]:
+            nfail += 1
+            if reported.get("scaled", 0) < 2:
+                reported["scaled"] = reported.get("scaled", 0) + 1
+                Fs = dict(F, bytes=fl["bytes"], shape=fl["shape"])
+                ops = shrink(Fs, Fresh(Fs), fl["ops"])
+                i, outs = first_diff(Fs, Fresh(Fs), ops)
+                if i is not None:
+                    run.violation("history-scaled-" + ops[i][0],
+                                  "scaled channel, history of %d ops on one open file: op #%d %r yields %r, on a freshly "
+                                  "opened file %r" % (len(ops), i, ops[i], outs[i], Fresh(Fs).of(annotate(ops)[i])),
+                                  dict(case_payload(Fs, ops), scaled=True), expected=Fresh(Fs).of(annotate(ops)[i]),
+                                  actual=outs[i])
         for fl in r["fails"]:
             nfail += 1
             if reported.get(fl["key"], 0) < 2:
